@@ -41,7 +41,7 @@ ASSUMPTIONS = [
   "if the ITERATIONS overflow bit is set the certificate is replaced by cost(qacc) <= cost(MuJoCo's qacc, same solver and iteration limit) + the same allowance (skipped if MuJoCo assembled a different number of rows)",
   "O2 allows 2e-3*(1+max|qacc_ref|) + sqrt(2*allowance*(M^-1)_ii) per dof (what a point within the allowed suboptimality may deviate by strong convexity) and is applied only where MuJoCo's rows have the same count as MJWarp's, MuJoCo raised no warning and MuJoCo's own qacc passes the certificate on MuJoCo's own problem",
   "O3: force within 2e-4*(1+max|force|) + 64*eps32*D*(|J||qacc|+|aref|) per row (MJWarp carries J*qacc-aref in float32 through the iterations); states compared only for rows farther than that from a zone boundary (for an elliptic contact: farther than the coarsest of its rows allows, mixed by 1+1/mu as for its forces, because the zone is decided by all rows of the contact together)",
-  "O3 qfrc_constraint = J'efc.force within 2e-4*(1+magnitudes) + 32*eps32*|J|'(D*(|J||qacc|+|aref|)): the Newton/pyramidal path recovers qfrc_constraint from the gradient (M*qacc - qfrc_smooth - grad), so it differs from J'force by |J|' times the float32 uncertainty of the forces themselves (half of what O3 grants per row); measured on the unchanged tree over the size scenes, seeds 0-3: at most 6.8*eps32 of that quantity (stiff contacts, D up to 1.6e4, where rounding qacc to float32 alone moves the true gradient by more than the observed difference); negligible next to the first term on the soft scenes",
+  "O3 qfrc_constraint = J'efc.force within 2e-4*(1+magnitudes) + 32*eps32*|J|'(D*(|J||qacc|+|aref|)): the Newton/pyramidal path recovers qfrc_constraint from the gradient (M*qacc - qfrc_smooth - grad), so it differs from J'force by |J|' times the float32 uncertainty of the forces themselves (half of what O3 grants per row); measured on the unchanged tree over the size scenes, seeds 0-3: at most 9.1*eps32 of that quantity (stiff contacts, D up to 1.6e4, where rounding qacc to float32 alone moves the true gradient by more than the observed difference); negligible next to the first term on the soft scenes",
   "opt.iterations=100 (MuJoCo default), opt.tolerance default 1e-8 (clamped to 1e-6 by put_model); CPU backend",
 ]
 BUDGET = {"quick": 900, "thorough": 4000}
@@ -254,7 +254,7 @@ def check_world(c, pre, mjm, m, d, w, overflow, mjd, tagkey, mjd_any=None, mjd_r
   # float32 floor: MJWarp carries Jaref = J*qacc - aref in float32, so each reported force is uncertain by at least
   # D*eps32*(|J||qacc|+|aref|) (O3 grants 64x that per row); the Newton/pyramidal path recovers qfrc_constraint from the
   # gradient, i.e. from M*qacc and qfrc_smooth, so it differs from J'force by |J|' times that uncertainty.  QFLOOR eps32 is
-  # granted (calibrated on the unchanged tree over the size scenes, seeds 0-3: max observed excess 6.8 eps32); for the
+  # granted (calibrated on the unchanged tree over the size scenes, seeds 0-3: max observed excess 9.1 eps32); for the
   # ordinary (soft) scenes this term is far below the f32dyn term.
   qtol = 2e-4 * (1 + float(np.max(mag, initial=0.0)))
   qfloor = (np.abs(P.J.T) @ (P.D * (np.abs(P.J) @ np.abs(qacc) + np.abs(P.aref)))) * EPS32 if nefc else np.zeros(P.nv)
